@@ -330,12 +330,12 @@ def run(ctx):
         # sampled cuts: 3 per history
         hists = [('cex', h, 'all') for h in cex] + [(s, h, '3') for s, h in gen]
     else:
-        # every k of every sync for the first 120 histories of each source, 3 sampled cuts for the rest
+        # every k of every sync for the first 200 histories of each source, 3 sampled cuts for the rest
         count = collections.Counter()
         hists = [('cex', h, 'all') for h in cex]
         for s, h in gen:
             count[s] += 1
-            hists.append((s, h, 'all' if count[s] <= 120 else '3'))
+            hists.append((s, h, 'all' if count[s] <= 200 else '3'))
     traces = _record(ctx, hists)
     ctx.log('recorded %d traces (%d with a cut), %d lines' % (
         len(traces), sum(1 for t in traces if t['src'].endswith('+cut')),
